@@ -182,6 +182,9 @@ class Interp:
             if ts is None and ks:
                 ts = ks[0].get('dtype') or ks[0].get('type')
             t = ctype(ts)
+            if t is None and isinstance(at, dict) and at.get('desugaredQualType'):
+                ts = at['desugaredQualType']      # a typedef name: use what it stands for
+                t = ctype(ts)
             if t:
                 return Con(t[0] // 8, 64, False)
             if ts and ts.endswith('*'):
